@@ -261,8 +261,8 @@ def r5_helix_spans(ctx, cf):
 
 
 def _r1_python_by_evaluation(ctx):
-    """compute_dssp and _prep_kabsch_sander_arrays evaluated (sa/tensym.py) on a model trajectory of seven residues - complete, proline,
-    one without O, a water whose oxygen is called O, one with its atoms listed backwards, a ligand with N, C, O but no CA, a lone CA: the index arrays are the ones the definition gives
+    """compute_dssp and _prep_kabsch_sander_arrays evaluated (sa/tensym.py) on a model trajectory of eight residues - complete, proline,
+    one without O, a water whose oxygen is called O, one with its atoms listed backwards, a ligand with N, C, O but no CA, a lone CA, a complete backbone under an unknown residue name: the index arrays are the ones the definition gives
     (-1 for a missing atom, protein = has N, CA, C and O), the kernel receives them in the order of its signature, and the result is, per
     frame and residue, the kernel's character (its simplified image when asked) or 'NA' for a residue that is not a complete protein residue."""
     from ..tensym import TenSym, Ten, Obj
@@ -272,10 +272,11 @@ def _r1_python_by_evaluation(ctx):
     pk = ctx.py.func(HB, "_prep_kabsch_sander_arrays")
     gm = ctx.py.func(HB, "_get_or_minus1")
     res_spec = [("ALA", ["CB", "N", "CA", "C", "O"]), ("PRO", ["N", "CA", "C", "O", "CD"]), ("SER", ["N", "CA", "C"]), ("HOH", ["O", "H1", "H2"]), ("GLY", ["O", "C", "CA", "N"]),
-                ("LIG", ["N", "C", "O", "C1"]), ("CAL", ["CA"])]
+                ("LIG", ["N", "C", "O", "C1"]), ("CAL", ["CA"]), ("XYZ", ["N", "CA", "C", "O"])]     # XYZ: a complete backbone under a name no residue table knows
+    standard = {"ALA", "PRO", "SER", "GLY"}
     atoms, residues = [], []
     for k, (rn, names) in enumerate(res_spec):
-        r = Obj(name=rn, atoms=[], chain=Obj(index=0 if k < 3 else 1))
+        r = Obj(name=rn, atoms=[], chain=Obj(index=0 if k < 3 else 1), index=k, resSeq=k + 1, is_protein=rn in standard, is_water=rn == "HOH", is_nucleic=False)
         residues.append(r)
         for nm in names:
             a_ = Obj(name=nm, index=len(atoms), residue=r)
